@@ -460,6 +460,17 @@ def bind_unused(ctx: "Ctx", f, env: Dict[str, str], keep_prob: float = 0.12):
     return f
 
 
+_GRAMMAR_FOR_FEATURES: List[Any] = [None]
+
+
+def features_with_grammar(f, grammar) -> List[str]:
+    _GRAMMAR_FOR_FEATURES[0] = grammar
+    try:
+        return features(f)
+    finally:
+        _GRAMMAR_FOR_FEATURES[0] = None
+
+
 def features(f, under_forall: bool = False, under_exists: bool = False, out=None) -> List[str]:
     """Input-class features of a formula (used to identify known findings by the class
     of constraint that fails, never by seed)."""
@@ -469,6 +480,15 @@ def features(f, under_forall: bool = False, under_exists: bool = False, out=None
     if op in ("forall", "exists"):
         if f[3] is not None:
             out.add(f"{op}_with_match_expression")
+            if _GRAMMAR_FOR_FEATURES[0] is not None:
+                syms = []
+                for el in f[3]:
+                    syms.append(el[1] if el[0] in ("t", "n") else el[2])
+                flat = "".join(syms)
+                alts = ["".join(a) for a in canonical(_GRAMMAR_FOR_FEATURES[0]).get(f[1], [])]
+                if flat not in alts:
+                    # the expression expands below the first level of the nonterminal
+                    out.add(f"{op}_with_nested_match_expression")
         elif not mentions(f[5], f[2]):
             # ISLa drops such a quantifier when substituting (unsound for an empty
             # range: see known findings)
